@@ -300,7 +300,13 @@ class TorState(object):
         if 'guard' in router.flags:
             self.guards[router.id_hex] = router
         if 'authority' in router.flags:
-            self.authorities[router.name] = router
+            # keyed by nickname; nicknames are not unique, so a further
+            # authority with the same one goes under its hex id
+            # instead of replacing the relay already listed
+            key = router.name
+            if self.authorities.get(key, router) is not router:
+                key = router.id_hex
+            self.authorities[key] = router
 
         if router.name in self.routers:
             self.routers[router.name] = None
